@@ -52,6 +52,11 @@ type RpcCall struct {
 	ExtraPolls int `json:"extra_polls,omitempty"`
 	// ReqBuilder: the request is built with rpc.NewRequest (pooled builder state) and freed twice
 	ReqBuilder bool `json:"req_builder,omitempty"`
+	// OwnerFree: channel kind: another task of the caller (the owner of the channel: a watchdog, the goroutine
+	// that opened the call) frees the channel while the first task is blocked inside Receive or Response (the
+	// handler is still busy): the channel is reference counted for exactly this, the blocked operation still
+	// gets its reply (only the result bytes are no longer valid, the status is)
+	OwnerFree bool `json:"owner_free,omitempty"`
 }
 
 type RpcPlan struct {
@@ -128,7 +133,11 @@ func genRpcPlan(g *simrt.Rng, tier string) *RpcPlan {
 			c.ExtraPolls = 1 + g.IntN(2)
 		}
 		c.ReqBuilder = g.Bool(0.3)
-		if c.Kind == "channel" && c.CancelUs == 0 && g.Bool(0.15) {
+		if c.Kind == "channel" && len(c.CliStream) == 0 && c.DelayUs > 0 && !c.Early && c.OpCtx == 0 && c.CancelUs == 0 && g.Bool(0.3) {
+			// (the caller goes straight to Response: a Receive that returns would drop the last reference)
+			c.OwnerFree, c.SkipRecv, c.ExtraPolls = true, true, 0
+		}
+		if c.Kind == "channel" && c.CancelUs == 0 && !c.OwnerFree && g.Bool(0.15) {
 			c.OpCtx = 1 + g.IntN(2)
 			c.OpUs = simrt.Pick(g, 1, 50, 2000, 40000)
 			if c.Code == "cancelled" || c.Code == "timeout" {
@@ -164,6 +173,7 @@ type rpcCallState struct {
 	srvSawEnd   bool
 	responded   bool
 	reqOK       bool
+	ownerFreed  bool // the channel was freed by its owner task while the caller was blocked in Response
 }
 
 type rpcRun struct {
@@ -366,6 +376,9 @@ func (r *rpcRun) checkResult(id int, val spec.Value, st status.Status) {
 		if st.Message != c.Msg && !c.Probe {
 			r.fail("C04-status", "call %d: handler returned code=\"ok\" message=%q, caller received code=\"ok\" message=%q", id, c.Msg, st.Message)
 		}
+		if s.ownerFreed {
+			return // the result bytes are valid until the channel is freed: only the status can be judged
+		}
 		if c.ResultSize == 0 {
 			if len(val) != 0 {
 				r.fail("C04-result", "call %d: handler returned no result but the caller got %d bytes", id, len(val))
@@ -449,6 +462,17 @@ func (r *rpcRun) clientCall(id int, cl rpc.Client) {
 		}
 		s.cliOpened = true
 		var g group
+		if c.OwnerFree {
+			g.goTask(fmt.Sprintf("call%d-owner", id), func() {
+				// at a quiescent instant the first task is parked inside Receive/Response, holding its reference
+				hWaitQuiescent("rpc.owner-free")
+				if !s.cliDone && !s.responded {
+					simrt.Logf("call%d owner frees the channel", id)
+					s.ownerFreed = true
+					ch.Free()
+				}
+			})
+		}
 		// op runs one operation of the caller under its per-operation deadline, repeating it while it
 		// ends by that deadline alone
 		op := func(what string, f func(ctx async.Context) status.Status) status.Status {
